@@ -15,8 +15,10 @@ CONSTANTS MaxDepth, DumpCases
 Kinds == {"fn", "mod", "trait-self", "static-di", "dyn-async-trait"}
 \* bounds: how many bounds the dependency parameter of each function declares (1: `&impl Next`, 2: `&(impl Next + Marker)`)
 \* ret: what every function / method of the chain returns: an owned value (u64) or a borrow (&'static str)
-Progs == [kind : Kinds, depth : 1..MaxDepth, async : BOOLEAN, work : 0..1, bounds : 1..2, ret : {"value", "ref"}]
-WellFormed(p) == (p.kind = "dyn-async-trait" => p.async)
+\* work: 0 nothing, 1 one heap allocation, 2 a 4 KiB buffer kept on the stack ACROSS an await (a large future, no allocation)
+Progs == [kind : Kinds, depth : 1..MaxDepth, async : BOOLEAN, work : 0..2, bounds : 1..2, ret : {"value", "ref"}]
+WorkAllocs(w) == IF w = 1 THEN 1 ELSE 0
+WellFormed(p) == (p.kind = "dyn-async-trait" => p.async) /\ (p.work = 2 => p.async)
 Static(p) == p.kind # "dyn-async-trait"
 \* Level 2: allocations added by one generated delegation hop.  Hop k (1-based) of a chain of depth d enters
 \* function k; in the trait kinds the last hop is the entraited trait's method, the others are entraited fns.
@@ -34,13 +36,13 @@ OuterCall == /\ pc = "call" /\ level = 1
 NestedCall == /\ pc = "body" /\ level < p.depth
               /\ allocs' = allocs + HopCost(p, level + 1) /\ level' = level + 1 /\ UNCHANGED <<p, path, pc>>
 \* the innermost body does the user's work
-Work == /\ pc = "body" /\ level = p.depth /\ allocs' = allocs + p.work /\ pc' = "done" /\ UNCHANGED <<p, path, level>>
+Work == /\ pc = "body" /\ level = p.depth /\ allocs' = allocs + WorkAllocs(p.work) /\ pc' = "done" /\ UNCHANGED <<p, path, level>>
 Next == OuterCall \/ NestedCall \/ Work
 Spec == Init /\ [][Next]_vars
 
 RECURSIVE Inner(_, _)
 Inner(q, k) == IF k > q.depth THEN 0 ELSE HopCost(q, k) + Inner(q, k + 1)
-Total(q, pa) == (IF pa = "trait" THEN HopCost(q, 1) ELSE 0) + Inner(q, 2) + q.work
+Total(q, pa) == (IF pa = "trait" THEN HopCost(q, 1) ELSE 0) + Inner(q, 2) + WorkAllocs(q.work)
 StepwiseIsTotal == pc = "done" => allocs = Total(p, path)
 \* Level 1 on Level 2
 ZeroCost == \A q \in { x \in Progs : WellFormed(x) } : Static(q) => Total(q, "trait") = Total(q, "direct")
